@@ -314,6 +314,10 @@ func shardWorkload(caseID string, seed int64, dir string, rep int) {
 		}
 		env.Write(batch)
 		env.Delete(sm.Selector{Measurement: "mem", TagEq: map[string]string{"host": s.Tags["host"]}}, 1, 3, true, true)
+		if victim%2 == 0 {
+			// a range no TSM file overlaps: the delete then decides from the cache alone
+			env.Delete(sm.Selector{Measurement: "mem", TagEq: map[string]string{"host": s.Tags["host"]}}, 1<<60, 1<<60+10, true, true)
+		}
 	})
 	bg(func(lg *rand.Rand) { env.Store.BackupShard(env.ShardID, time.Time{}, io.Discard) })
 
@@ -756,7 +760,7 @@ func tsiDeleteDeadlock(caseID string, seed int64, dir string) {
 		if res == ev.Deadlocked {
 			abandoned = true
 			site := "unknown-site"
-			if strings.Contains(dump, "tsi1.(*Partition).Wait") && strings.Contains(dump, "tsi1.(*LogFile).Close") {
+			if strings.Contains(dump, "tsi1.(*Partition).Wait") && (strings.Contains(dump, "tsi1.(*LogFile).Close") || strings.Contains(dump, "tsi1.(*IndexFile).Close")) {
 				site = "tsi1-delete-waits-for-log-compaction-that-waits-for-the-deletes-iterator"
 			} else {
 				site = deadlockSite(dump)
